@@ -198,7 +198,7 @@ int io::stream::dispatch::process(const struct message *msg) const
 			error(_func, "%s", MPT_tr("bad reply id"));
 			return BadValue;
 		}
-		if ((ans = srm._wait.get(rid))) {
+		if ((ans = srm._wait.handler(rid))) {
 			int ret = ans->cmd(ans->arg, &tmp);
 			ans->cmd = 0;
 			return ret;
@@ -279,7 +279,7 @@ ssize_t io::stream::push(size_t len, const void *src)
 	}
 	else if (!src && _cid) {
 		command *c;
-		if ((c = _wait.get(_cid))) {
+		if ((c = _wait.handler(_cid))) {
 			c->cmd(c->arg, 0);
 		}
 	}
